@@ -253,10 +253,22 @@ def gen_prim_events(ctx):
                 atoms.append(dict(a=a + 1, sp=int(ac["species"][a]), u=[int(v) for v in u[k]]))
             if atoms is None:
                 continue  # a mis-built supercell is the supercell part's finding
-            for pm in PMATS:
-                P = get_primitive_matrix_by_centring(pm) if isinstance(pm, str) else np.array(pm, dtype=float)
+            for pm in PMATS + ["auto"]:
+                if pm == "auto":
+                    # guess_primitive_matrix: whatever spglib proposes must be a valid primitive matrix for this crystal
+                    try:
+                        from phonopy.structure.cells import guess_primitive_matrix
+                        P = np.array(guess_primitive_matrix(ucell), dtype=float)
+                    except Exception as e:
+                        ctx.violation("primitive:auto-exception", "guess_primitive_matrix raised %s" % type(e).__name__,
+                                      dict(cell=ac["name"], error=repr(e)))
+                        continue
+                else:
+                    P = get_primitive_matrix_by_centring(pm) if isinstance(pm, str) else np.array(pm, dtype=float)
                 Pn = np.rint(P * Pd).astype(int)
-                assert np.abs(Pn - P * Pd).max() < 1e-9
+                if np.abs(Pn - P * Pd).max() > 1e-9:
+                    ctx.extra["auto_pmat_not_sixths"] = ctx.extra.get("auto_pmat_not_sixths", 0) + 1
+                    continue
                 inp = dict(D=D, S=S, Pn=Pn.tolist(), Pd=Pd, atoms=atoms)
                 try:
                     tmat = np.dot(np.linalg.inv(np.array(S, dtype=float)), P)
@@ -274,6 +286,7 @@ def gen_prim_events(ctx):
                                exact=bool(presid < 1e-6))
                 except Exception as e:  # phonopy refuses the input
                     res = dict(status="error")
+                res["auto"] = bool(pm == "auto")
                 events.append(dict(pin=inp, res=res))
                 ctx.count(("prim", ac["name"], tuple(map(tuple, S)), str(pm)))
     return events
@@ -299,6 +312,7 @@ INVARIANT ImplPrimAttributes
 INVARIANT ImplPrimExact
 INVARIANT ImplAcceptsP
 INVARIANT ImplRejectsP
+INVARIANT ImplAutoIsPrimitive
 INVARIANT InvMachine
 INVARIANT ConformsPStatus
 INVARIANT ConformsPMaps
